@@ -254,6 +254,11 @@ def report(prop, pmod, results, tier, seed, t0):
         for fl in fz.get('failures', []):
             # a native failure whose input is covered by a known pin is not a new violation
             if fl.get('pin') and any(x.get('id') == fl['pin'] for x in opens_p):
+                if fl['pin'] not in matched_ids:
+                    matched_ids.add(fl['pin'])
+                    known_lines.append('KNOWN-FINDING: property=%s id=%s obligation=%s#runtime %s'
+                                       % (prop, fl['pin'], key, [x for x in opens_p if x.get('id') == fl['pin']][0].get('what', '')))
+                    samples.append({'known_finding': fl['pin'], 'witness': fl})
                 continue
             proved = all(o['discharged'] == o['paths'] for o in r['obligations']) and st == 'ok' and r['obligations']
             if proved:
